@@ -213,6 +213,7 @@ var specials = []any{"a b&c=d/e?f#g%h+i", "ünï çödé 日本", "semi;colon:at
 
 func main() {
 	c := core.New("C04")
+	c.ReplayFallback()
 	swagger := c.BuildSwagger()
 	rng := rand.New(rand.NewSource(c.Seed))
 	atoms := specgen.ParamAtoms()
